@@ -72,7 +72,11 @@ func HeredocText(h *Heredoc) string {
 	if h.TabTerm {
 		b.WriteByte('\t')
 	}
-	b.WriteString(h.DelimText)
+	if rs := []rune(h.DelimText); h.ContTerm > 0 && h.ContTerm <= len(rs) {
+		b.WriteString(string(rs[:h.ContTerm]) + "\\\n" + string(rs[h.ContTerm:]))
+	} else {
+		b.WriteString(h.DelimText)
+	}
 	b.WriteByte('\n')
 	return b.String()
 }
